@@ -258,15 +258,18 @@ func (t *Task) Execute() {
 	defer close(t.Done)
 
 	// Do some sanity checks
+	verifPoint("exec.start", t.TempDir())
 	if t.tempDirsExist() {
 		t.Failf("Existing temp folders found, so existing. Clean up temporary folders (starting with %s) before restarting the workflow!", tempDirPrefix)
 	}
 
 	if t.anyOutputsExist() {
+		verifPoint("exec.skip", t.TempDir())
 		t.drainStreamingInputs()
 		t.Done <- 1
 		return
 	}
+	verifPoint("exec.before_acquire", t.TempDir())
 
 	// Execute task
 	t.workflow.IncConcurrentTasks(t.cores) // Will block if max concurrent tasks is reached
@@ -274,6 +277,7 @@ func (t *Task) Execute() {
 	if err != nil {
 		t.Failf("Could not create directories: %v", err)
 	}
+	verifPoint("exec.after_mkdir", t.TempDir())
 	startTime := time.Now()
 	if t.CustomExecute != nil {
 		outputsStr := ""
@@ -289,15 +293,20 @@ func (t *Task) Execute() {
 		t.Auditf("Finished: %s", t.Command)
 	}
 	finishTime := time.Now()
+	verifPoint("exec.after_command", t.TempDir())
 	t.writeAuditLogs(startTime, finishTime)
+	verifPoint("exec.after_audit", t.TempDir())
 
 	t.ensureAllOutputsExist()
+	verifPoint("exec.after_ensure", t.TempDir())
 	finErr := t.finalizePaths()
 	if finErr != nil {
 		t.Fail(finErr)
 	}
 
+	verifPoint("exec.after_finalize", t.TempDir())
 	t.workflow.DecConcurrentTasks(t.cores)
+	verifPoint("exec.released", t.TempDir())
 
 	t.Done <- 1
 }
@@ -454,7 +463,9 @@ func FinalizePaths(tempExecDir string, ips ...*FileIP) error {
 			tempPath := tempExecDir + "/" + oip.TempPath()
 			finPath := oip.Path()
 			Debug.Println("Moving OutIP path: ", tempPath, " -> ", finPath)
+			verifPoint("fin.before_rename", tempExecDir, finPath)
 			renameErr := os.Rename(tempPath, finPath)
+			verifPoint("fin.after_rename", tempExecDir, finPath)
 			if renameErr != nil {
 				return errors.New(fmt.Sprintf("Could not rename out-IP file %s to %s: %s", tempPath, finPath, renameErr))
 			}
@@ -474,7 +485,9 @@ func FinalizePaths(tempExecDir string, ips ...*FileIP) error {
 				}
 			}
 			Debug.Println("Moving remaining file path: ", tempPath, " -> ", finPath)
+			verifPoint("fin.before_move", tempExecDir, finPath)
 			renameErr := os.Rename(tempPath, finPath)
+			verifPoint("fin.after_move", tempExecDir, finPath)
 			if renameErr != nil {
 				return errors.New(fmt.Sprintf("Could not rename remaining file %s to %s: %s", tempPath, finPath, renameErr))
 			}
@@ -486,7 +499,9 @@ func FinalizePaths(tempExecDir string, ips ...*FileIP) error {
 	}
 	// Remove temporary execution dir (but not for absolute paths, or current dir)
 	if tempExecDir != "" && tempExecDir != "." && tempExecDir[0] != '/' {
+		verifPoint("fin.before_removeall", tempExecDir)
 		remErr := os.RemoveAll(tempExecDir)
+		verifPoint("fin.after_removeall", tempExecDir)
 		if remErr != nil {
 			return errors.New(fmt.Sprintf("Could not remove temp dir: %s: %s", tempExecDir, remErr))
 		}
